@@ -5,8 +5,8 @@ LEVEL = "model_checking"
 
 def run(ck):
     q = ck.quick()
-    fc.run_family(ck, "C02", ["gop1", "audio1", "nocache1", "deliver2"] if q else list(fc.fs.SCENARIOS),
-                  ["C02"], 500 if q else 3000, 0 if q else 6000)
+    fc.run_family(ck, "C02", ["gop1", "audio1", "nocache1", "hevc1", "flv1", "flvaud1", "flvnocache1", "flvstamp2"] if q else list(fc.fs.SCENARIOS),
+                  ["C02"], 200 if q else 2000, 600 if q else 20000)
 
 
 META = {
